@@ -44,11 +44,11 @@ class Recogniser:
             r = frozenset(cur)
         elif k == 'rep':
             x = n.items[0]
-            # reach[c] = positions reachable after exactly c iterations; stop when nothing new appears
+            # cur = positions reachable after exactly c iterations; out = those with lo <= c <= hi;
+            # for an unbounded repetition stop when an iteration adds no new end position (closure reached)
             out = set()
             cur = {i}
             c = 0
-            seen_at = {}
             if n.lo == 0:
                 out |= cur
             while cur and (n.hi is None or c < n.hi):
@@ -62,11 +62,6 @@ class Recogniser:
                     out |= cur
                     if n.hi is None and not new:
                         break
-                else:
-                    fz = frozenset(cur)
-                    if seen_at.get(fz) is not None and n.hi is None and False:
-                        break
-                    seen_at[fz] = c
             r = frozenset(out)
         else:
             raise RuntimeError(k)
